@@ -228,6 +228,31 @@ theorem bookmark_measures (b b1 : Buf) (delta : Nat) (chunks : List Bytes)
   have := H chunks b1 0 (by omega) hc h2
   simpa using this
 
+/-- octets a definite-length header needs: short form 2, `0x81` form 3, `0x82` form 4 -/
+def hdrNeed (v : Nat) : Nat := if v < 128 then 2 else if v < 256 then 3 else 4
+
+/-- **C17.tag_len_exact**: `push_tag_len` writes the whole header or nothing — it fails with
+`OutOfBuffer` exactly when fewer octets are free than the header form needs (2 / 3 / 4, the long-form
+prefix octet included) and otherwise puts exactly the header in front of the content. -/
+theorem tag_len_exact (b : Buf) (hb : b.Inv) (tag : UInt8) (v : Nat) :
+    (tagLenBytes tag v).length = hdrNeed v ∧
+    (b.pos < hdrNeed v → b.pushTagLen tag v = .err .OutOfBuffer) ∧
+    (hdrNeed v ≤ b.pos → b.pushTagLen tag v = .ok (b.prepend (tagLenBytes tag v))) := by
+  have hl : (tagLenBytes tag v).length = hdrNeed v := by
+    unfold tagLenBytes hdrNeed
+    split
+    · rfl
+    · split <;> rfl
+  have hp : b.pos = Buf.cap - b.cells.length := rfl
+  have hi : b.cells.length ≤ Buf.cap := hb
+  refine ⟨hl, fun h => ?_, fun h => ?_⟩
+  · rw [pushTagLen_spec b hb, specOut, hl]
+    have : ¬ (b.len + hdrNeed v ≤ Buf.cap) := by simp only [Buf.len]; omega
+    rw [if_neg this]
+  · rw [pushTagLen_spec b hb, specOut, hl]
+    have : b.len + hdrNeed v ≤ Buf.cap := by simp only [Buf.len]; omega
+    rw [if_pos this]
+
 /-- **C17.cap_side**: the capacity is below 65536, which the two-octet long form needs -/
 theorem cap_side : Buf.cap < 65536 := by decide
 
